@@ -5,3 +5,9 @@ import TdVerif.Props.C02
 import TdVerif.Props.C04
 import TdVerif.Props.C09
 import TdVerif.Props.C14
+import TdVerif.Props.C03
+import TdVerif.Props.C05
+import TdVerif.Props.C20
+import TdVerif.Props.C12
+import TdVerif.Props.C15
+import TdVerif.Props.C07
